@@ -3090,7 +3090,6 @@ void Analyser::AnalyserImpl::analyseModel(const ModelPtr &model)
     // Make our internal variables available through our API.
 
     std::map<AnalyserInternalVariablePtr, AnalyserVariablePtr> aiv2avMappings;
-    std::map<VariablePtr, AnalyserVariablePtr> v2avMappings;
 
     stateIndex = MAX_SIZE_T;
     variableIndex = MAX_SIZE_T;
@@ -3151,7 +3150,6 @@ void Analyser::AnalyserImpl::analyseModel(const ModelPtr &model)
                                    equations);
 
         aiv2avMappings.emplace(internalVariable, variable);
-        v2avMappings.emplace(internalVariable->mVariable, variable);
 
         if (type == AnalyserVariable::Type::STATE) {
             mModel->mPimpl->mStates.push_back(variable);
@@ -3270,7 +3268,12 @@ void Analyser::AnalyserImpl::analyseModel(const ModelPtr &model)
         AnalyserEquationPtrs equationDependencies;
 
         for (const auto &variableDependency : variableDependencies) {
-            auto variable = v2avMappings[variableDependency];
+            // Note: a dependency was recorded through the variable that was
+            //       tracked at the time, which is not necessarily the variable
+            //       that is now tracked (i.e. the primary variable), so look
+            //       it up through its internal variable.
+
+            auto variable = aiv2avMappings[Analyser::AnalyserImpl::internalVariable(variableDependency)];
 
             if (variable != nullptr) {
                 for (const auto &equation : variable->equations()) {
